@@ -75,6 +75,22 @@ def enumerate_cases(cfg):
                         yield {'t': 'grid', 'conform': conform,
                                'provided': provided, 'hooks': hooks,
                                'alt': alt, 'adapt': adapt, 'falsy': True}
+    # exceptions that iteration machinery treats specially must propagate
+    # unchanged too (seed C14g: hooks consumed through a generator turn a
+    # StopIteration into RuntimeError)
+    stoplists = [[]]
+    for k in (1, 2):
+        stoplists.extend(list(p) for p in itertools.product(
+            ['none', 'value', 'stop'], repeat=k))
+    for conform in ('absent', 'none', 'raise_stop'):
+        for provided in (False, True):
+            for hooks in stoplists:
+                for alt in ALT:
+                    for adapt in ('std', 'own_raise_stop', 'own_super',
+                                  'inh_super_im2'):
+                        yield {'t': 'grid', 'conform': conform,
+                               'provided': provided, 'hooks': hooks,
+                               'alt': alt, 'adapt': adapt}
     # the other attachment forms, over a reduced but still complete product
     for conform in CONFORM_FORMS:
         for provided in (False, True):
@@ -170,6 +186,8 @@ def _make_iface(adapt, log, adapt_value):
             return adapt_value
         if how == 'raise':
             raise _Boom('adapt')
+        if how == 'raise_stop':
+            raise StopIteration('adapt')
         if how == 'super':
             return call_super()
         raise AssertionError(how)
@@ -219,9 +237,11 @@ def _grid_case(case, out):
             raise ValueError('conform attr')
         body['__conform__'] = property(_get)
     elif conform in ('none', 'value', 'raise_value', 'raise_type',
-                     'raise_attr'):
+                     'raise_attr', 'raise_stop'):
         def __conform__(self, i):
             log.append(('conform', id(i)))
+            if conform == 'raise_stop':
+                raise StopIteration('inside conform')
             if conform == 'none':
                 return None
             if conform == 'value':
@@ -276,6 +296,8 @@ def _grid_case(case, out):
                 return None
             if kind == 'value':
                 return hook_values[k]
+            if kind == 'stop':
+                raise StopIteration('hook %d' % k)
             raise _Boom('hook %d' % k)
         hooks.append(hook)
 
@@ -297,6 +319,9 @@ def _grid_case(case, out):
             if kind == 'raise':
                 candidates += 1
                 return ('exc', _Boom, ('hook %d' % k,))
+            if kind == 'stop':
+                candidates += 1
+                return ('exc', StopIteration, ('hook %d' % k,))
         return None
 
     def model():
@@ -307,8 +332,11 @@ def _grid_case(case, out):
                 candidates += 1
                 return ('exc', ValueError, ('conform attr',))
         elif conform in ('none', 'value', 'raise_value', 'raise_type',
-                         'raise_attr'):
+                         'raise_attr', 'raise_stop'):
             exp_log.append(('conform', id(iface)))
+            if conform == 'raise_stop':
+                candidates += 1
+                return ('exc', StopIteration, ('inside conform',))
             if conform == 'raise_attr':
                 candidates += 1
                 return ('exc', AttributeError, ('inside conform',))
@@ -334,6 +362,9 @@ def _grid_case(case, out):
             elif how == 'raise':
                 candidates += 1
                 r = ('exc', _Boom, ('adapt',))
+            elif how == 'raise_stop':
+                candidates += 1
+                r = ('exc', StopIteration, ('adapt',))
             elif how == 'super':
                 r = std_adapt()
         if r is not None:
@@ -350,11 +381,11 @@ def _grid_case(case, out):
     # count what *could* have produced an outcome
     possible = 0
     possible += conform in ('value', 'raise_value', 'raise_type',
-                            'raise_attr', 'attr_valueerror')
+                            'raise_attr', 'attr_valueerror', 'raise_stop')
     possible += bool(case['provided'])
     possible += sum(1 for h in case['hooks'] if h != 'none')
     possible += case['alt'] != 'absent'
-    possible += how in ('value', 'raise')
+    possible += how in ('value', 'raise', 'raise_stop')
     if possible >= 2:
         out.nontrivial = True
 
